@@ -143,7 +143,12 @@ def run_include_rewrite(case, ctx):
         main = [" ORG $1000\n", "START LDA #1\n", " INCLUDE part.asm\n", "AFTER NOP\n", " JMP START\n"]
         versions = [[" LDB #%d\n" % r.randrange(256), " NOP\n"], [" LDB #%d\n" % r.randrange(256), " CLRA\n"], [" FCB %d,%d,%d\n" % (r.randrange(256), r.randrange(256), r.randrange(256))],
                     ["INNER LDX #$%04X\n" % r.randrange(65536)], [" RMB %d\n" % r.randrange(1, 9)]]
+        # versions that make the assembly FAIL inside the include (bad line, missing nested include, nested cycle): a rejected
+        # assembly must leave nothing behind that changes the next one
+        open("loop.asm", "w").write(" INCLUDE part.asm\n")
+        versions += [[" LDB #1\n", " XYZ 5\n"], [" INCLUDE nosuch.asm\n"], [" NOP\n", " INCLUDE loop.asm\n"], [" LDA #\n"]]
         r.shuffle(versions)
+        versions.append([" LDB #%d\n" % r.randrange(256)])
         seen = []
         for vi, body in enumerate(versions):
             with open("part.asm", "w") as f:
@@ -153,6 +158,12 @@ def run_include_rewrite(case, ctx):
             spliced = main[:2] + body + main[3:]
             want = fpworker.fingerprint(list(spliced))
             ctx.mon("include-rewrite-assemblies")
+            failing = any(("XYZ" in l or "nosuch" in l or "loop.asm" in l or l.strip() == "LDA #") for l in body)
+            if failing:
+                if got["outcome"] != "diag":
+                    ctx.violation("determinism", "include-rewrite", "FAILING-INCLUDE-NOT-A-DIAGNOSTIC:" + got["outcome"], {"show": "%s version %d" % (case["id"], vi), "include": "".join(body)})
+                    return
+                continue
             if got != want:
                 ctx.outcome("stale-include")
                 ctx.violation("determinism", "include-rewrite", "STALE-INCLUDE-CONTENT", {"show": "%s version %d: INCLUDE part.asm does not reflect the file's current content" % (case["id"], vi),
